@@ -15,7 +15,7 @@ RULE = ('configurations = every subset (size <=S) of {--gc 5, --gc 5 3 2, -G '
         'ends {all pass, failing+erroring tests, layer testSetUp raises, layer '
         'testTearDown raises, KeyboardInterrupt in a test body, '
         'KeyboardInterrupt in a test setUp, -x with a failing test, '
-        'SystemExit from a layer setUp}; the real Runner is run in-process and '
+        'SystemExit from a layer setUp, a test that adds warnings filters, a test that leaves sys.stdout replaced (with --buffer)}; the real Runner is run in-process and '
         'a snapshot of gc thresholds/debug flags, traceback.format_exception / '
         'print_exception, sys.settrace (the function), the active trace and '
         'profile hooks (sys and threading), warnings.filters and the identity '
@@ -24,11 +24,12 @@ RULE = ('configurations = every subset (size <=S) of {--gc 5, --gc 5 3 2, -G '
 ASSUMPTIONS = [
     'signal handlers (pdb installs a SIGINT handler) and logging handlers are not part of the stated state',
 ]
-BOUND = {'quick': 'subsets of size <=3 (130) x 8 endings', 'thorough': 'all 512 subsets x 8 endings'}
+BOUND = {'quick': 'subsets of size <=3 (130) x 10 endings', 'thorough': 'all 512 subsets x 10 endings'}
 CHUNK = 8
 
 OPTS = ['gc1', 'gc3', 'G', 'cov', 'prof', 'buf', 'warn', 'D', 'gcat']
-ENDS = ['normal', 'fail', 'hookS', 'hookD', 'kbint', 'kbint_setup', 'x', 'sysexit_layer']
+ENDS = ['normal', 'fail', 'hookS', 'hookD', 'kbint', 'kbint_setup', 'x', 'sysexit_layer',
+        'warnfilter', 'leave_replaced']
 
 
 def cases(tier, seed):
@@ -36,6 +37,9 @@ def cases(tier, seed):
     for k in range(S + 1):
         for sub in itertools.combinations(OPTS, k):
             for e in worlds.rot(ENDS, seed):
+                if e == 'leave_replaced' and 'buf' not in sub:
+                    # without --buffer the runner never touches the streams
+                    continue
                 yield [list(sub), e]
 
 
@@ -66,6 +70,12 @@ def build(end):
         q1 = 'fail'
     elif end == 'sysexit_layer':
         B['f'] = {'setUp': 'SystemExit'}
+    elif end == 'warnfilter':
+        # a test that installs warnings filters of its own
+        q1 = 'warnfilter'
+    elif end == 'leave_replaced':
+        q1 = 'leave_replaced'
+
     tests = [{'n': 'q0', 'l': 'A', 's': 'pass'}, {'n': 'q1', 'l': 'A', 's': q1},
              {'n': 'q2', 'l': 'A', 's': q2}, {'n': 'q3', 'l': 'B', 's': 'pass'}]
     return {'layers': [A, B], 'tests': tests}
